@@ -146,7 +146,7 @@ Proof.
   break_goal; [exact I|].
   apply disciplined_bind.
   - apply authenticate_disc; [apply stable_nowrites; cbn; auto|apply asess_ok_seen; cbn; auto].
-  - intros k' [o|e]; [exact I|]. apply disc_nosave. apply nosave_bind; [apply get_client_nosave|]. intros [c|]; exact I.
+  - intros k' [o|e]; [exact I|]. apply disc_nosave. apply nosave_bind; [apply get_client_nosave|]. intros [c|]; cbn; auto.
 Qed.
 
 Lemma push_auth_disc w n now r k : nowrites k -> disciplined n k (push_auth w n now r).
